@@ -166,6 +166,28 @@ def ndims_guard2(s2, obj) -> bool:
     for t, pol in flatten_conds(s2.ev.conds):
         if pol and t in (("cmp", "Eq", nd, const(2)), ("cmp", "Eq", ls, const(2)), ("cmp", "Gt", ls, const(1)), ("cmp", "Gt", nd, const(1))):
             return True
+    # a private method introduced later that could not be evaluated in line (*args): what holds at EVERY call `self.<helper>(...)`
+    # holds for its receiver inside it
+    from ..sites2 import standalone_interps
+    from ..symx import baseline_functions
+    top = s2.top
+    if top.qualname not in baseline_functions() and top.is_method and top.params and obj == ("param", top.params[0]):
+        sites = []
+        for q, it in standalone_interps(s2.it.prog).items():
+            if it is s2.it:
+                continue
+            caller = s2.it.prog.functions.get(q)
+            if caller is None or not caller.params:
+                continue
+            cs = ("param", caller.params[0])
+            for e in it.events:
+                if e.kind == "call" and e.term[1] == ("attr", cs, top.name):
+                    nd2 = ("call", ("attr", cs, "ndims"), (), ())
+                    ls2 = ("call", ("name", "len"), (("attr", cs, "shape"),), ())
+                    sites.append(any(pol and t in (("cmp", "Eq", nd2, const(2)), ("cmp", "Eq", ls2, const(2)), ("cmp", "Gt", ls2, const(1)),
+                                                   ("cmp", "Gt", nd2, const(1))) for t, pol in flatten_conds(e.conds)))
+        if sites and all(sites):
+            return True
     return False
 
 
